@@ -305,7 +305,7 @@ func exec(op string) string {
 	case "kf-d13":
 		return kfD13()
 	case "trace2":
-		return "accept"
+		return replayTrace(op)
 	case "sched":
 		return replaySched(op)
 	}
@@ -382,7 +382,7 @@ func main() {
 		out.Case(op, "accept", cls, true)
 	}
 	// scheduling tier: both writers x write timeout {0, >0} x protocol, scripted transport
-	nsched := 240 * mult
+	nsched := 700 * mult
 	if v := os.Getenv("C07_NSCHED"); v != "" {
 		fmt.Sscan(v, &nsched)
 	}
